@@ -421,3 +421,34 @@ Example C01_witness :
   /\ dup_budget (chf ex_fans) 2 (dlog st) = 1
   /\ length (expected_sink (chf ex_fans) 2 [(7%N, []); (8%N, [])]) = 4.
 Proof. exact c01_witness. Qed.
+
+(** ** Round proofs 5: the steps BETWEEN two Router steps of the product are bounded, and every run of
+    the CLOSED product (only the topics' own Sender / hand-over / receive steps and Router steps:
+    no other clients) under an eventually-clean fault script is finite.  The bound comes from the
+    Sender-side measure of GoChannel/SubMeasure.v: [nu T a = 2 * measure T a + |buf a|] decreases on
+    every inner step of a topic's send loop; [nux] is its sum over the topics. *)
+From WM Require GoChannel.SubMeasure Pipeline.ProductTerm Pipeline.ProductTerm2.
+
+Theorem C01_topic_inner_steps_bounded : forall T ls,
+  Forall (fun l => ProductTerm.inner l = true) ls ->
+  forall a, SubInvX.SX a -> SubLive.covers T a -> ProductTerm.scount a ls <= ProductTerm.nu T a.
+Proof. exact ProductTerm.inner_run_bounded. Qed.
+
+Theorem C01_product_between_steps_bounded : forall (M : Type) (hf : nat -> M -> list M) x k sc srcs ls,
+  Forall (fun l => ProductTerm.between l = true) ls ->
+  forall xs, ProductTerm.BInv x k xs ->
+  ProductTerm.xcount hf x k sc srcs xs ls <= ProductTerm.nux x k xs.
+Proof. exact @ProductTerm.between_run_bounded. Qed.
+
+(** PARTIAL with respect to "... and ends with every source message on the final topic": finiteness
+    is proved for every scheduler; that a closed product which cannot step any more is quiescent
+    (a non-empty [abs] has an enabled Sender step or a received unsettled copy for the Router) is
+    the progress half - p-REG's SubProgress.SProg for one instance - and is not lifted here *)
+Theorem C01_product_terminates_closed_partial : forall (M : Type) (hf : nat -> M -> list M) (eqbM : M -> M -> bool),
+  (forall a b : M, eqbM a b = true <-> a = b) -> forall x k sc srcs, 0 < k -> eventually_clean k sc ->
+  forall xs st, XR x k srcs xs st -> ProductTerm2.XXInv k xs ->
+  Acc (ProductTerm2.csucc hf x k sc srcs) xs.
+Proof. exact @ProductTerm2.closed_product_terminates_partial. Qed.
+Print Assumptions C01_topic_inner_steps_bounded.
+Print Assumptions C01_product_between_steps_bounded.
+Print Assumptions C01_product_terminates_closed_partial.
